@@ -14,6 +14,7 @@
   matrix is checked by the oracle only.
 -/
 import GraphiqModel.Proofs.Noise
+import GraphiqModel.Proofs.Channel
 namespace Graphiq.C06
 open Graphiq Graphiq.Noise Graphiq.DM
 
@@ -88,12 +89,101 @@ theorem d37_empty_mixture (p : Rat) (q : Nat) (t : Tab) : Mix.depolarize p q [(0
   have e : List.range 4 = [0, 1, 2, 3] := by decide
   simp [Mix.depolarize, Mix.total, qsumL, e]
 
+/-- **every `T_k` is a valid tableau.**  For a circuit whose operations address existing qubits (control ≠ target for
+    CNOT/CZ), whenever `StabilizerCompiler.compile` returns, every branch of the mixture is a valid `(ne+np)`-qubit Clifford
+    tableau — through all gates, per-branch measurements and resets, Pauli errors, depolarizing branching and `reduce()`.
+    (Uses the C07 validity theorems.) -/
+theorem every_branch_valid (ns : Bool) (ne np nc : Nat) (det : Bool) (ops : List COp)
+    (hw : ∀ op ∈ ops, OpWF (ne + np) np op) (s : StabSt) (h : compileStab ns ne np nc det ops = .ok s) :
+    ∀ x ∈ s.mix, x.2.n = ne + np ∧ x.2.Valid := compileStab_ok ns ne np nc det ops hw s h
+
+/-! ## (c) Density matrix = Σ p_k ρ(T_k): statement kept, not proved for all n -/
+
+/-- clause (c) as it would read for measurement-free circuits (where the two known findings do not apply).  Not proved: it
+    needs `ρ(P·T) = P ρ(T) P†` for every n (tensor-product lifting, cited mathematics).  The driver evaluates both sides
+    exactly on every correspondence input (`want=mixdm`, n ≤ 4). -/
+def dm_equals_mixture_statement : Prop :=
+  ∀ (ne np nc : Nat) (det : Bool) (ops : List COp) (s : StabSt) (d : DmSt) (ρ : Mat),
+    (∀ op ∈ ops, op.kind.isOneQubit = true ∨ op.kind.isCtrlPair = true) →
+    compileStab true ne np nc det ops = .ok s → compileDM true ne np nc det ops = .ok d → d.ρ = some ρ →
+    Mat.EqOn ρ (mixtureDensity (ne + np) s.mix)
+
+/-! ### channel identities for arbitrary dimension (Mathlib matrices over ℂ): the density-matrix noise models are physical -/
+
+section channel
+open Graphiq.Channel Matrix
+open scoped ComplexOrder
+variable {n : Type} [Fintype n] [DecidableEq n] {K : Type} [Fintype K]
+
+/-- a mixture of unitary conjugations `ρ ↦ Σ_k f_k U_k ρ U_k†` (depolarizing noise: the four Paulis on one qubit with
+    `f = (1−p, p/3, p/3, p/3)`; a Pauli error: one term) multiplies the trace by `Σ f_k` … -/
+theorem unitary_mixture_trace (f : K → ℝ) (U : K → Matrix n n ℂ) (hU : ∀ k, (U k)ᴴ * U k = 1) (ρ : Matrix n n ℂ) :
+    (mixUnitary f U ρ).trace = ((∑ k, f k : ℝ) : ℂ) * ρ.trace := trace_mixUnitary f U hU ρ
+
+/-- … and preserves positive semidefiniteness when the weights are non-negative -/
+theorem unitary_mixture_psd (f : K → ℝ) (hf : ∀ k, 0 ≤ f k) (U : K → Matrix n n ℂ) (ρ : Matrix n n ℂ)
+    (hρ : ρ.PosSemidef) : (mixUnitary f U ρ).PosSemidef := posSemidef_mixUnitary f hf U ρ hρ
+
+/-- the depolarizing weights sum to 1 (trace preserved); photon loss scales the trace by the survival probability and
+    keeps positivity -/
+theorem depolarizing_weights_sum_to_one (p : ℝ) : (1 - p) + p / 3 + p / 3 + p / 3 = 1 := depol_factors p
+theorem photon_loss_trace_and_psd (lam : ℝ) (h : lam ≤ 1) (ρ : Matrix n n ℂ) (hρ : ρ.PosSemidef) :
+    (((1 - lam : ℝ) : ℂ) • ρ).trace = ((1 - lam : ℝ) : ℂ) * ρ.trace ∧ (((1 - lam : ℝ) : ℂ) • ρ).PosSemidef :=
+  ⟨loss_trace lam ρ, loss_posSemidef lam h ρ hρ⟩
+end channel
+
+/-! ## (d) Zero strength ⇒ identical to the noiseless run -/
+
+/-- **mixtures**: on a one-branch mixture of positive weight (what every noiseless run is) a noise of zero strength returns the
+    same weight and the same tableau (`DepolarizingNoise(0)` re-tabulates it, which is pointwise the identity:
+    `tabulation_is_identity`) -/
+theorem zero_strength_is_identity_mixture (nm : NoiseM) (hz : nm.isZeroStrength = true) (q : Nat) (w : Rat) (hw : 0 < w) (t : Tab) :
+    Mix.applyNoise nm q [(w, t)] = .ok [(w, t)] ∨ Mix.applyNoise nm q [(w, t)] = .ok [(w, t.norm)] :=
+  zero_strength_single_branch nm hz q w hw t
+
+theorem tabulation_is_identity (t : Tab) : t.norm.n = t.n ∧ ∀ i, i < 2 * t.n → PRow.EqOn t.n (t.norm.row i) (t.row i) :=
+  norm_is_identity t
+
+/-- **density matrices**: `DepolarizingNoise(0)`, `PhotonLoss(0)`, `PauliError("I")` and `NoNoise` return a Hermitian state
+    entry by entry -/
+theorem zero_strength_is_identity_dm (n q : Nat) (hq : q < n) (ρ : Mat) (hn : ρ.n = pow2 n) (hh : Mat.Herm ρ) (a : Bool)
+    (nm : NoiseM) (hz : nm = .depol 0 a ∨ nm = .loss 0 a ∨ nm = .pauli .I a ∨ nm = .none) :
+    ∃ ρ', DMx.applyNoise n nm q ρ = .ok ρ' ∧ Mat.EqOn ρ' ρ := by
+  rcases hz with h | h | h | h <;> subst h
+  · exact dm_depol_zero n q hq ρ hn hh a
+  · exact (dm_zero_strength n q ρ hn hh a).1
+  · exact (dm_zero_strength n q ρ hn hh a).2.1
+  · exact (dm_zero_strength n q ρ hn hh a).2.2
+
+/-! ## Known findings, as theorems about the model that mirrors the code -/
+
+/-- the density-matrix measurement divides by the unnormalised probability: after `PhotonLoss(1/2)` on `|0⟩⟨0|` (trace 1/2), a
+    Z measurement returns a state of trace 1 — the survival weight is gone -/
+theorem measurement_after_loss_renormalises :
+    (match compileDM true 1 0 1 true
+        [{ kind := .identity, n0 := .loss (1/2) true }, { kind := .measZ }] with
+      | .ok { ρ := some ρ, .. } => ρ.trace == ⟨1, 0⟩
+      | _ => false) = true ∧
+    (match compileStab true 1 0 1 true
+        [{ kind := .identity, n0 := .loss (1/2) true }, { kind := .measZ }] with
+      | .ok s => Mix.total s.mix == 1/2
+      | _ => false) = true := by decide +kernel
+
+/-- the mixture measures branch by branch: `X` with depolarizing noise then a Z measurement (forced outcome 1) leaves the
+    mixture with overlap `7/9` with `|1⟩`, the density matrix (post-selected on outcome 1) with overlap 1 -/
+theorem per_branch_measurement_differs :
+    (match compileDM true 1 0 1 true [{ kind := .x, n0 := .depol (1/3) true }, { kind := .measZ }],
+           compileStab true 1 0 1 true [{ kind := .x, n0 := .depol (1/3) true }, { kind := .measZ }] with
+      | .ok { ρ := some ρ, .. }, .ok s => ρ.e 1 1 == ⟨1, 0⟩ && (mixtureDensity 1 s.mix).e 1 1 == ⟨7/9, 0⟩
+      | _, _ => false) = true := by decide +kernel
+
 /-! ## Non-vacuity -/
 
 /-- CNOT(e0 → p0) with depolarizing noise *before* on the control and a Pauli error *after* on the target -/
 def exOp : COp := { kind := .cnot, r1 := 0, t1 := .e, r2 := 0, t2 := .p, n0 := .depol (1/3) false, n1 := .pauli .X true }
 
 example : Supported exOp := ⟨Or.inr rfl, rfl, fun _ => rfl⟩
+example : OpWF 2 1 exOp := ⟨by decide, fun _ => by decide, fun _ => by decide⟩
 example : placeOp true .stab 1 exOp 7 =
     .ok [Act.noise 7 0 1 (.depol (1/3) false), Act.gate 7, Act.noise 7 1 0 (.pauli .X true)] := by decide +kernel
 
